@@ -135,6 +135,10 @@ where
     terminal_manager: TM,
     state: CachePadded<Mutex<SharedStoreState>>,
     gc_signal: (parking_lot::Mutex<GCSignal>, Condvar),
+    /// Verification hook: set whenever `gc_signal.1` is notified (an adopted
+    /// gc thread waits for this flag instead of the condition variable)
+    #[cfg(oxidd_verif)]
+    verif_gc_notified: std::sync::atomic::AtomicBool,
     workers: crate::workers::Workers,
 }
 
@@ -642,6 +646,9 @@ where
         shared.node_count += delta as i64;
         if shared.gc_state == GCState::Init && shared.node_count >= shared.gc_hwm as i64 {
             shared.gc_state = GCState::Triggered;
+            #[cfg(oxidd_verif)]
+            self.verif_gc_notified
+                .store(true, std::sync::atomic::Ordering::SeqCst);
             self.gc_signal.1.notify_one();
         }
 
@@ -2080,6 +2087,10 @@ impl<
             // the gc thread. Terminate it.
             let gc_signal = &self.0.gc_signal;
             *gc_signal.0.lock() = GCSignal::Quit;
+            #[cfg(oxidd_verif)]
+            self.0
+                .verif_gc_notified
+                .store(true, std::sync::atomic::Ordering::SeqCst);
             gc_signal.1.notify_one();
         }
     }
@@ -2314,6 +2325,8 @@ pub fn new_manager<
         }),
         terminal_manager: TMC::T::<'static>::with_capacity(terminal_node_capacity),
         gc_signal: (parking_lot::Mutex::new(GCSignal::RunGc), Condvar::new()),
+        #[cfg(oxidd_verif)]
+        verif_gc_notified: std::sync::atomic::AtomicBool::new(false),
         workers: crate::workers::Workers::new(threads),
     });
 
@@ -2336,7 +2349,29 @@ pub fn new_manager<
             LOCAL_STORE_STATE.with(|state| state.current_store.set(store_addr));
 
             let store = &*gc_mref.0;
+            // Verification hook: an exploration harness may adopt this thread.
+            // The wait for the condition variable is then replaced by a
+            // modelled wait for `verif_gc_notified` under the harness'
+            // scheduler, until the harness releases the thread again.
+            #[cfg(oxidd_verif)]
+            let mut verif_adopted = oxidd_core::verif::daemon_start(store_addr);
             loop {
+                #[cfg(oxidd_verif)]
+                let verif_woken = verif_adopted && {
+                    use std::sync::atomic::Ordering::SeqCst;
+                    let woken = oxidd_core::verif::daemon_wait(store_addr, &|| {
+                        store.verif_gc_notified.load(SeqCst)
+                    });
+                    if woken {
+                        store.verif_gc_notified.store(false, SeqCst);
+                    } else {
+                        verif_adopted = false;
+                    }
+                    woken
+                };
+                #[cfg(not(oxidd_verif))]
+                let verif_woken = false;
+
                 let mut lock = store.gc_signal.0.lock();
                 // Verification hook: a manager that is dropped before this
                 // thread reaches `wait()` for the first time would otherwise
@@ -2346,7 +2381,9 @@ pub fn new_manager<
                 if *lock == GCSignal::Quit {
                     break;
                 }
-                store.gc_signal.1.wait(&mut lock);
+                if !verif_woken {
+                    store.gc_signal.1.wait(&mut lock);
+                }
                 if *lock == GCSignal::Quit {
                     break;
                 }
